@@ -285,6 +285,16 @@ def body(ck, F, cfg):
     okv = lastc is not None and isinstance(lastc[0], Cond) and lastc[0].op == "iszero" and lastc[0].neg and isinstance(getattr(lastc[0], "subject", None), Pt)
     okv = okv and isinstance(final, Enum) and final.variant == "Ok" and isinstance(lastc[1], Enum) and lastc[1].variant == "Err" and "VerificationError" in repr(lastc[1])
     ck.require(okv, "R07.4", "verdict", f"batch_verify must return Ok exactly when the single accumulated multiscalar sum is the identity; return value {ret!r}", where)
+    # "succeeds if and only if each instance would succeed on its own": apart from failures handed on from the instances'
+    # own verification_scalars (`?`) and the verdict, batch_verify must not have a failure exit of its own (seeded change
+    # C07j: an extra `gens_capacity <= max_n_padded` rejection).  A strict `capacity < M` (M = widest member) cannot fire
+    # after the members' own capacity guards and is tolerated.
+    extra = []
+    for c_, v_, w_ in chain[:-1] if okv else chain:
+        harmless = isinstance(c_, Cond) and c_.op == "lt" and not c_.neg and c_.a is not None and eq(c_.a, isym("cap")) and eq(c_.b, M)
+        if not harmless:
+            extra.append((str(c_), repr(v_), w_))
+    ck.require(not extra, "R07.4", "no-extra-rejection", f"batch_verify rejects (or leaves early) on a condition of its own, which individual verification does not have: {extra[:3]}", where)
     msms = list(I.msm_log)  # whole dynamic extent of the batch_verify run
     ck.require(len(msms) == 1 and msms[0]["equal"], "R07.3", "single-msm", f"one multiscalar check over equally long lists expected; {[(str(m['len_bases']), str(m['len_scalars'])) for m in msms]}", where)
     ck.floor("accumulation sites", len([o for o in ck.obligations if o[1].startswith("accumulate:")]), 4)
